@@ -189,6 +189,59 @@ def graphH : Handler := fun j => do
   | .error e => pure (Json.mkObj [("err", jErr e), ("stage", stage)])
   | .ok ns => pure (Json.mkObj [("err", Json.null), ("nodes", Json.arr (ns.map jNode).toArray)])
 
+/-! ### Starlark builtins -/
+
+partial def svalOfJson (j : Json) : Except String SVal :=
+  match j with
+  | .null => pure .none
+  | .bool b => pure (.bool b)
+  | .num n => pure (if n.exponent == 0 then .int n.mantissa else .float)
+  | .str s => pure (.str (bytesOfString s))
+  | .arr a => do pure (.list (← a.toList.mapM svalOfJson))
+  | .obj _ => do
+    let d ← j.getObjVal? "d"
+    let a ← d.getArr?
+    let kvs ← a.toList.mapM (fun p => do
+      let q ← p.getArr?
+      match q.toList with
+      | [k, v] => pure ((← svalOfJson k), (← svalOfJson v))
+      | _ => throw "dict entry expected")
+    pure (.dict kvs)
+
+def tkeyOf : String → Option TKey
+  | "name" => some .name | "command" => some .command | "dependencies" => some .deps | "inputs" => some .inputs
+  | "exclude_inputs" => some .excludes | "outputs" => some .outputs | "bin_output" => some .binOutput
+  | "output_checks" => some .checks | "tags" => some .tags | "fingerprint" => some .fingerprint
+  | "platforms" => some .platforms | "environment_variables" => some .env | "timeout" => some .timeout
+  | _ => none
+
+def kwOfJson (j : Json) : Except String (List (String × SVal)) := do
+  let a ← j.getArr?
+  a.toList.mapM (fun p => do
+    let q ← p.getArr?
+    match q.toList with
+    | [k, v] => pure ((← k.getStr?), (← svalOfJson v))
+    | _ => throw "kwarg expected")
+
+/-- {"op":"loader.star","calls":[{"fn":"target"|"alias","kw":[[keyword, value]..]}..]}
+    → {"err":bool,"targets":[dto..],"aliases":[..]} (the file fails as soon as one call fails) -/
+def starH : Handler := fun j => do
+  let calls ← getArr j "calls"
+  let mut ts : List Json := []
+  let mut als : List Json := []
+  for c in calls.toList do
+    let fn ← getStr c "fn"
+    let kw ← kwOfJson (← c.getObjVal? "kw")
+    if fn == "target" then
+      match starTarget (kw.map (fun p => (tkeyOf p.1, p.2))) with
+      | .error _ => return Json.mkObj [("err", Json.bool true)]
+      | .ok t => ts := ts ++ [jDtoTarget t]
+    else
+      match starAlias (kw.map (fun p => ((if p.1 == "name" then some true else if p.1 == "actual" then some false else none), p.2))) with
+      | .error _ => return Json.mkObj [("err", Json.bool true)]
+      | .ok a => als := als ++ [Json.mkObj [("name", jBytes a.name), ("actual", jBytes a.actual)]]
+  pure (Json.mkObj [("err", Json.bool false), ("targets", Json.arr ts.toArray), ("aliases", Json.arr als.toArray)])
+
 /-! ### lock protocol -/
 
 def evOfJson (j : Json) : Except String Lock.Ev := do
@@ -288,6 +341,6 @@ def lockEnumH : Handler := fun j => do
 
 def handlers : List (String × Handler) :=
   [("lock.run", lockRunH), ("lock.enum", lockEnumH), ("loader.mk.blocks", mkBlocksH), ("loader.mk", mkH), ("loader.script", scriptH),
-   ("loader.enrich", enrichH), ("loader.graph", graphH)]
+   ("loader.enrich", enrichH), ("loader.graph", graphH), ("loader.star", starH)]
 
 end Grog.Drv.LockLoad
